@@ -32,7 +32,7 @@ func (e *Engine) havocLoop(fr *Frame, st *State, head *ssa.BasicBlock, phis []*s
 	for _, t := range targets {
 		switch {
 		case t.ghost != "":
-			st.ghost[t.ghost] = e.freshVar("ghost_"+t.ghost, e.ghostSort(t.ghost))
+			st.ghost[t.ghost] = e.freshGhost(st, t.ghost)
 		case t.whole != nil:
 			old, _ := e.heapGet(st, t.whole).(ArrV)
 			st.heap[t.whole] = e.freshArr(st, old.Elem, t.whole.Name+"_loop")
@@ -363,6 +363,9 @@ func (e *Engine) collectCallWrites(fr *Frame, st *State, fn *ssa.Function, ci ss
 }
 
 func (e *Engine) contractWrites(st *State, con *Contract, args []ssa.Value, argVal func(ssa.Value) (Value, bool), out *[]writeTarget) {
+	for _, g := range con.GhostInc {
+		*out = append(*out, writeTarget{ghost: g})
+	}
 	if len(con.Modifies) == 0 {
 		return
 	}
